@@ -160,6 +160,8 @@ def sidToSid (c : Ctx) (input : Str) : Except Err Sid :=
     let ty := (r.map (·.1)).getD []
     let fields := (r.map (·.2)).getD []
     if query.isEmpty then .ok ⟨string, ty, fields⟩
+    -- repaired: a query is not applied to an untyped non-empty string
+    else if !string.isEmpty && ty.isEmpty then .ok ⟨string ++ '?' :: query, [], []⟩
     else c.applyQuery string query ty fields
 
 /-- `sid_factory.dict_to_sid(fields)`; `none` = `None` -/
